@@ -87,31 +87,40 @@ def _get_active_realizations(
     objective_weights: NDArray[np.float64] | None = None,
     constraint_weights: NDArray[np.float64] | None = None,
 ) -> tuple[NDArray[np.bool_] | None, NDArray[np.bool_] | None]:
-    if objective_weights is None:
-        active_realizations = np.abs(config.realizations.weights) > 0
-        if np.all(active_realizations):
+    active_realizations = np.abs(config.realizations.weights) > 0
+    if objective_weights is None and constraint_weights is None:
+        # Realization filters rank all realizations and their weights are only
+        # known after the functions are evaluated, nothing can be skipped then:
+        if _filters_in_use(config) or np.all(active_realizations):
             return None, None
-        active_objectives = np.broadcast_to(
+    # Functions without filtered weights use the configured weights:
+    active_objectives = (
+        np.broadcast_to(
             active_realizations,
             (config.objectives.weights.size, active_realizations.size),
         )
-        active_constraints = (
-            None
-            if config.nonlinear_constraints is None
-            else np.broadcast_to(
-                active_realizations,
-                (
-                    config.nonlinear_constraints.lower_bounds.size,
-                    active_realizations.size,
-                ),
-            )
-        )
-        return active_objectives, active_constraints
-    active_objectives = np.abs(objective_weights) > 0
-    active_constraints = (
-        None if constraint_weights is None else np.abs(constraint_weights) > 0
+        if objective_weights is None
+        else np.abs(objective_weights) > 0
     )
+    if config.nonlinear_constraints is None:
+        active_constraints = None
+    elif constraint_weights is None:
+        active_constraints = np.broadcast_to(
+            active_realizations,
+            (config.nonlinear_constraints.lower_bounds.size, active_realizations.size),
+        )
+    else:
+        active_constraints = np.abs(constraint_weights) > 0
     return active_objectives, active_constraints
+
+
+def _filters_in_use(config: EnOptConfig) -> bool:
+    filter_maps = [config.objectives.realization_filters]
+    if config.nonlinear_constraints is not None:
+        filter_maps.append(config.nonlinear_constraints.realization_filters)
+    return bool(config.realization_filters) and any(
+        item is not None and bool(np.any(item >= 0)) for item in filter_maps
+    )
 
 
 def _get_function_results(  # noqa: PLR0913
